@@ -43,7 +43,7 @@ TREE_NAMES = ["Hello World.TXT", "éàü.md", "README", "日本語.tar.gz", "  s
 
 
 def examples(tier):
-    return 1400 if tier == "quick" else 25000
+    return 14000 if tier == "quick" else 200000
 
 
 def lit(s):
